@@ -382,7 +382,8 @@ theorem C05_cex_lazy_object :
     Impl.prog true ⟨true, false⟩ false p St.init = (⟨[1, 2], some (2, 1, .object, .raise)⟩, none) ∧
     Spec.prog ⟨true, false⟩ p [] = ([1, 2], some ⟨1, 2⟩) := by decide
 
-/-- the known sub-chain drop, as `collapse` describes it: `(a && f0 -c) && d` runs c and d only -/
+/-- the pinned snapshot's sub-chain drop (repaired in /repo e204b18), as `collapse` describes it:
+`(a && f0 -c) && d` ran c and d only -/
 theorem C05_cex_subchain_drop :
     let py : Cmd := ⟨2, 0, .hidden, .none, false, true, [], []⟩
     let p := [Ch.and (.and (.cmd (mk 1 0 .hidden)) (.cmd py)) (.cmd (mk 3 0 .hidden))]
